@@ -292,6 +292,20 @@ fn main() {
     }
     let with_ext: Vec<vcommon::en::W> = cat::hellos_with_extension_lists().into_iter().filter(|w| w.lens.first().map_or(false, |l| l.label == "dtls_length")).collect();
     sink.merge(struct_sweep(&run, &[&DTLS_HANDSHAKE], &with_ext, 0, &sfx, 64, &extra));
+    // version x cookie length grid: all 256 cookie lengths under 12 versions, for both cookie-carrying messages
+    let mut grid: Vec<vcommon::en::W> = Vec::new();
+    for ver in [0xfeffu16, 0xfefe, 0xfefd, 0xfefc, 0xfe00, 0x0303, 0x0301, 0x0000, 0xffff, 0x8000, 0x7fff, 0xff00] {
+        for c in 0..=255usize {
+            grid.push(cat::dtls_hs(1, 0, None, 0, |w| cat::client_hello_body(w, ver, 0, 1, 1, cat::ExtBlock::Absent, Some(c))));
+            grid.push(cat::dtls_hs(3, 0, None, 0, |w| {
+                w.u16(ver);
+                w.block(1, "cookie_len", |w| {
+                    w.fill(c, 0xc0);
+                });
+            }));
+        }
+    }
+    sink.merge(struct_sweep(&run, &[&DTLS_HANDSHAKE], &grid, 0, &sfx, 64, &extra));
     // every fragment / body size
     let b_frag = |n: usize| cat::dtls_hs(11, 3, Some(70000), 5, |w| {
         w.fill(n, 0xf7);
